@@ -157,9 +157,30 @@ def def_rows(pa, var, avoid_blocks=()):
     return out
 
 
+def in_region_cycle(pa, var, avoid_blocks=()):
+    """Some definition of the local sits on a cycle of the analysed region: its path condition then speaks about *an*
+    iteration, not about the last one, so the local cannot be expanded (it stays an opaque atom)."""
+    for site in var[2]:
+        if site == "entry" or site == ("entry",):
+            continue
+        bb = site[0]
+        if bb in pa.cfg.reach_strict(bb, avoid_blocks):
+            return True
+    return False
+
+
 def expand(pa, e, cond=None, avoid_blocks=(), keep=lambda var: False):
     """Rows [(condition, var-free expr)] for expression e under `cond` (default TRUE)."""
     b = pa.bdd
+    user_keep = keep
+    memo = {}
+
+    def keep(var):
+        r = memo.get(var)
+        if r is None:
+            r = bool(user_keep(var)) or in_region_cycle(pa, var, avoid_blocks)
+            memo[var] = r
+        return r
     work = [(b.TRUE if cond is None else cond, e)]
     done = []
     guard = 0
